@@ -45,6 +45,11 @@ def strategy_(draw, tier):
     base["ents"] = base["ents"][:2]
     for e in base["ents"]:
         e["big"] = False
+        if e["kind"] == "fifo":
+            # (a fault on the stat with which shutil.copyfile recognises special files makes the
+            # cross-device copy open(2) the fifo and block until the harness alarm: 20 s per run,
+            # reported as inconclusive; fifos stay in C05, which injects no errors)
+            e["kind"] = "file"
     if base["state"] == "collision100":
         base["state"] = "collision"
     base["errno"] = draw(st.sampled_from(ERRNOS))
